@@ -63,6 +63,8 @@ FILES = [
     "scico/linop/_util.py",
     "scico/function.py",
     "scico/util.py",
+    "scico/functional/_indicator.py",
+    "scico/functional/_denoiser.py",
 ]
 RULE = (
     "fn: random functional expressions (leaves zero/sqL2/l2/l1/huber sep+nonsep/l1-l2/l21; nodes c*f, f*c, L/c, f+g, "
@@ -1078,8 +1080,18 @@ def _build_operator(case):
     return F, G.dec(case["u"], (n,)), G.dec(case["v"], (n,)), G.dec(case["w"], (m,)), cplx
 
 
-def _cmp_vec(ctx, op, case, impl, mod, oracle=None, rtol=1e-9):
+def _cmp_vec(ctx, op, case, impl, mod, oracle=None, rtol=1e-9, exact=False):
+    """`exact`: polynomial expressions of dyadic data with few bits are computed without rounding by the code and by the
+    model (every intermediate value is representable, so summation order / fused multiply-add do not matter):
+    the comparison is then equality"""
     impl = np.asarray(impl, dtype=np.complex128).ravel()
+    if exact:
+        mod = np.asarray(mod, dtype=np.complex128).ravel()
+        ctx.count("exact-comparisons")
+        if impl.shape != mod.shape or not np.array_equal(impl, mod):
+            ctx.disagree(op, case, G.enc(impl), G.enc(mod), oracle=oracle, note="exact (dyadic) comparison")
+            return False
+        return True
     if impl.shape != mod.shape or not (common.allclose(impl.real, mod.real, TOLK, rtol) and common.allclose(impl.imag, mod.imag, TOLK, rtol)):
         ctx.disagree(op, case, G.enc(impl), G.enc(mod), oracle=oracle)
         return False
@@ -1126,9 +1138,9 @@ def stream_jac(ctx, model):
         # Op.eval, Op.vjpT its transpose): value, jvp and Gmap computed by the model from A, B, C, c
         gop = model.call("opjac", n=n, m=m, F={"A": G.cmat(A), "B": G.cmat(B), "C": G.cmat(C), "c": G.cv(c0)},
                          u=G.cv(u), v=G.cv(v), w=G.cv(w))
-        ok = ok and _cmp_vec(ctx, "jac.op.value", case, Fu, G.from_cv(gop["eval"]), jac_oracle)
-        ok = ok and _cmp_vec(ctx, "jac.op.jvp", case, Jv, G.from_cv(gop["jvp"]), jac_oracle)
-        ok = ok and _cmp_vec(ctx, "jac.op.vjp", case, Gmap(W), G.from_cv(gop["vjp" if conjugate else "vjp_noconj"]), jac_oracle)
+        ok = ok and _cmp_vec(ctx, "jac.op.value", case, Fu, G.from_cv(gop["eval"]), jac_oracle, exact=True)
+        ok = ok and _cmp_vec(ctx, "jac.op.jvp", case, Jv, G.from_cv(gop["jvp"]), jac_oracle, exact=True)
+        ok = ok and _cmp_vec(ctx, "jac.op.vjp", case, Gmap(W), G.from_cv(gop["vjp" if conjugate else "vjp_noconj"]), jac_oracle, exact=True)
         po, cv_ = scico.cvjp(F, U)
         ok = ok and _cmp_vec(ctx, "jac.cvjp", case, cv_(W)[0], G.from_cv(got["cvjp"]), jac_oracle)
         J = linop.jacobian(F, U, include_eval=inc)
@@ -1234,8 +1246,8 @@ def stream_jac_block(ctx, model):
                  ("jac_block", n1, n2, m, cplx, conjugate, bool(np.any(B1))))
         ctx.count(f"jac_block:{'c128' if cplx else 'f64'}:conjugate={conjugate}")
         Fu, Jv = F.jvp(U, V)
-        ok = _cmp_vec(ctx, "jac_block.value", case, Fu, G.from_cv(gop["eval"]), jac_block_oracle)
-        ok = ok and _cmp_vec(ctx, "jac_block.jvp", case, Jv, G.from_cv(gop["jvp"]), jac_block_oracle)
+        ok = _cmp_vec(ctx, "jac_block.value", case, Fu, G.from_cv(gop["eval"]), jac_block_oracle, exact=True)
+        ok = ok and _cmp_vec(ctx, "jac_block.jvp", case, Jv, G.from_cv(gop["jvp"]), jac_block_oracle, exact=True)
         gw = F.vjp(U, conjugate=conjugate)[1](W)
         if not hasattr(gw, "arrays") or _shape_sig(gw) != _shape_sig(U) or _dtype_of(gw) != _dtype_of(U):
             ctx.disagree("jac_block.vjp.structure", case, {"shape": _shape_sig(gw), "dtype": _dtype_of(gw)}, {"shape": _shape_sig(U), "dtype": _dtype_of(U)}, oracle=jac_block_oracle)
@@ -1297,7 +1309,14 @@ def stream_jac_mixed(ctx, model):
             jadj_err = None
         except Exception as e:  # noqa: BLE001
             jadj_impl, jadj_err = None, common.err_kind(e)
-        if "err" in got["jadj"] or jadj_err is not None:
+        if "err" in got["jadj"] and jadj_err is None:
+            # the recorded rejection (jacobian-include-eval-mixed-dtype) no longer happens: then the value must be what
+            # the unrestricted model says, (F(u), Gmap(w))
+            ctx.count("known-finding-no-longer-fails:" + JACMIX)
+            got2 = model.call("jac", n=n, m=m, P=G.cmat(P), Q=G.cmat(Q), Fu=G.cv(Fu_np), v=G.cv(v), w=G.cv(w),
+                              conjugate=conjugate, include_eval=inc, real_input=rin)
+            pairs = (("jac.jacobian.eval", J(V), got["jeval"]["blocks"]), ("jac.jacobian.adj", jadj_impl, got2["jadj"]["blocks"]))
+        elif "err" in got["jadj"] or jadj_err is not None:
             ctx.count("jac_mixed:include_eval-adj-rejected")
             if got["jadj"].get("err") != jadj_err:
                 ctx.disagree("jac.jacobian.adj.reject", case, jadj_err, got["jadj"].get("err", "a value"), oracle=jac_oracle)
@@ -2105,7 +2124,7 @@ def stream_autograd_api(ctx, model):
         names = ["C->C", "R->C", "R->R", "C->R"]
         ctx.case({"tag": "linadj", "branch": names[branch], "n": n, "m": m}, ("linadj", branch, n, m))
         ctx.count("linadj:" + names[branch])
-        _cmp_vec(ctx, "linadj", {"branch": branch, "M": G.enc(M), "y": G.enc(yv)}, impl, np.asarray(got, dtype=np.complex128), linadj_oracle)
+        _cmp_vec(ctx, "linadj", {"branch": branch, "M": G.enc(M), "y": G.enc(yv)}, impl, np.asarray(got, dtype=np.complex128), linadj_oracle, exact=True)
 
 
 API_ARGNUMS = [0, 1, 2, (0, 1), (1, 2), (0, 2)]
@@ -2298,11 +2317,93 @@ def stream_linadj2(ctx, model):
             if np.asarray(impl).dtype != cdt(kx):
                 ctx.disagree(name + ".dtype", case, str(np.asarray(impl).dtype), str(np.dtype(cdt(kx))), oracle=linadj2_oracle)
                 continue
-            _cmp_vec(ctx, name, case, impl, np.asarray(got, dtype=np.complex128), linadj2_oracle)
+            _cmp_vec(ctx, name, case, impl, np.asarray(got, dtype=np.complex128), linadj2_oracle, exact=True)
 
 
 # --------------------------------------------------------------------------------------------
 # corpus, correspondence entry point, findings, search, replay
+
+
+def generate(ctx):
+    """translator (ast): conjugation sites, forwarded flags, linear_adjoint branches, Loss rescaling statements and the
+    Functional family -> lean/Scico/Generated/AutogradTables.lean with decide-obligations against Scico.Autograd.Tables"""
+    import autograd_translate
+
+    t = autograd_translate.write()
+    ctx.extra["translated_tables"] = {"conjugation_sites": len(t["conj"]), "forwarded_flags": len(t["forwards"]),
+                                      "linear_adjoint_branches": len(t["linadj"]), "loss_rescale_methods": len(t["rescale"]),
+                                      "functional_family": len(t["family"])}
+    return [("Scico.Generated.AutogradTables",
+             "source tables = model tables (conjugation sites, forwarded conjugate/include_eval flags, linear_adjoint branches, "
+             "Loss.__mul__/__truediv__ copy+rebind+set_scale, Functional family); every evaluable __init__ calls super().__init__(); "
+             "only Functional defines grad")]
+
+
+def _targeted_oracles(ctx):
+    """property oracles on the implementation for the facts the generated tables are about (run when a generated
+    obligation no longer checks): a failing input where the changed source really breaks the property"""
+    import inspect
+    import scico.numpy as snp
+    from scico import functional, loss
+
+    common.setup_scico()
+    # 1. every evaluable functional / loss that can be built without arguments has a working grad
+    x = snp.array(np.array([[0.5, -1.25], [2.0, 0.75]]))
+    for name, cls in sorted(list(inspect.getmembers(functional, inspect.isclass)) + list(inspect.getmembers(loss, inspect.isclass))):
+        if not (isinstance(cls, type) and issubclass(cls, functional.Functional)) or getattr(cls, "has_eval", None) is False:
+            continue
+        try:
+            f = cls(y=x) if issubclass(cls, loss.Loss) else cls()
+        except Exception:  # noqa: BLE001
+            continue
+        try:
+            val = float(f(x))
+        except Exception:  # noqa: BLE001
+            continue
+        if not np.isfinite(val):
+            continue
+        try:
+            g = np.asarray(f.grad(x))
+        except Exception as e:  # noqa: BLE001
+            return {"functional": name, "x": np.asarray(x).tolist(), "grad_raised": repr(e)[:200]}
+        if np.all(np.isfinite(g)):
+            d = snp.array(np.array([[1.0, 0.5], [-0.25, 2.0]]))
+            fd = fd_directional(f, x, d, 2.0**-12)
+            ri = float(np.sum(g * np.asarray(d)))
+            if abs(fd - ri) > 1e-4 * (1 + abs(fd)) and abs(fd_directional(f, x, d, 2.0**-16) - ri) > 1e-4 * (1 + abs(fd)):
+                return {"functional": name, "x": np.asarray(x).tolist(), "d": np.asarray(d).tolist(), "re_inner_grad_d": ri, "finite_difference": fd}
+    # 2. the wrappers of _autograd.py on a fixed mixed-dtype table row, vjp/jacobian on a fixed non-holomorphic operator,
+    #    a fixed use-then-rescale history
+    rng = np.random.Generator(np.random.PCG64(2026))
+    ns, m = [2, 1, 2], 2
+    base = {"tag": "api_table", "ns": ns, "m": m, "kinds": [False, True, True], "As": [G.enc(G.dy(rng, (m, k), True)) for k in ns],
+            "y": G.enc(G.dy(rng, (m,), True)), "xs": [G.enc(G.dy(rng, (k,), c)) for k, c in zip(ns, [False, True, True])]}
+    for an in API_ARGNUMS:
+        for aux in (False, True):
+            for api in ("grad", "value_and_grad"):
+                r = api_table_oracle(dict(base, argnums=list(an) if isinstance(an, tuple) else an, has_aux=aux, api=api))
+                if r is not None:
+                    return r
+    n = 2
+    A, B, C = G.dy(rng, (m, n), True), G.dy(rng, (m, n), True), G.dy(rng, (m, n), True)
+    for inc in (False, True):
+        case = {"n": n, "m": m, "cplx": True, "A": G.enc(A), "B": G.enc(B), "C": G.enc(C), "c0": G.enc(G.dy(rng, (m,), True)),
+                "u": G.enc(G.dy(rng, (n,), True)), "v": G.enc(G.dy(rng, (n,), True)), "w": G.enc(G.dy(rng, (m,), True)),
+                "conjugate": True, "include_eval": inc}
+        r = jac_oracle(case)
+        if r is not None:
+            return r
+    for br in range(4):
+        r = linadj_oracle({"branch": br, "M": G.enc(G.dy(rng, (2, 2), True)), "y": G.enc(G.dy(rng, (2,), True))})
+        if r is not None:
+            return r
+    hist = [{"k": "new", "s": 1.5}, {"k": "use", "obj": 0}, {"k": "mul", "obj": 0, "c": 3.0, "side": "l"}, {"k": "div", "obj": 0, "c": 4.0},
+            {"k": "set", "obj": 1, "s": 0.75}, {"k": "mul", "obj": 1, "c": -0.5, "side": "r"}]
+    for kind in ("SquaredL2Loss", "Loss+L1"):
+        r = heap_oracle_factory(kind, None)({"kind": kind, "cplx": True, "n": 2, "factory_seed": 7, "ops": hist, "x": G.enc(np.array([0.5 - 1.0j, -1.25 + 0.25j]))})
+        if r is not None:
+            return r
+    return None
 
 
 def run_corpus(ctx, model):
@@ -2569,6 +2670,10 @@ def _search_fd(ctx, budget):
 
 
 def search(ctx, model, why):
+    if why is not None:
+        r = _targeted_oracles(ctx)
+        if r is not None:
+            return r
     return _search_fd(ctx, ctx.n(60, 600))
 
 
